@@ -1669,7 +1669,9 @@ func body(w *hx.W) {
 	rng := w.Rand("c12")
 	for k := 0; k < w.Pick(1, 4); k++ {
 		r := &runner{w: w, class: "long-lived"}
+		endLong := w.Begin("script/long-lived", "long-lived connection", 900*time.Second)
 		r.longLived(rng, w.Pick(1500, 4000))
+		endLong()
 		w.CaseStr(fmt.Sprintf("long-lived/%d/%d", w.Shard, k))
 		w.Class(r.class)
 	}
@@ -1680,6 +1682,10 @@ func body(w *hx.W) {
 			r.respell = rand.New(rand.NewSource(rng.Int63()))
 			w.Metric("scripts_with_respelled_response_keywords", 1)
 		}
+		// a script that does not finish (a client call blocked forever although the scripted server
+		// answered everything) is a violation with the goroutine dump as witness, not a timeout of the run
+		classes := []string{"pipelined", "pipelined", "pipelined", "pipelined", "same-type-in-order", "expunge-command", "state-sequence", "state-sequence", "refused-literal", "fetch-star"}
+		endScript := w.Begin("script/"+classes[i%10], fmt.Sprintf("script #%d of class %s", i, classes[i%10]), 240*time.Second)
 		switch {
 		case i%10 < 4:
 			r.class = "pipelined"
@@ -1703,6 +1709,7 @@ func body(w *hx.W) {
 			r.class = "fetch-star"
 			r.fetchStar(rng)
 		}
+		endScript()
 		w.CaseStr(strings.Join(r.hist, "\n"))
 		w.Class(r.class)
 		w.Metric("scripted_steps", int64(len(r.hist)))
